@@ -62,7 +62,7 @@ def mem (p : Pt α) (b : Box α) : Prop :=
 def Sub (a b : Box α) : Prop := ∀ p, mem p a → mem p b
 
 /-- the box has no point -/
-def IsEmpty (b : Box α) : Prop := ∀ p, ¬ mem p b
+def NoPoint (b : Box α) : Prop := ∀ p, ¬ mem p b
 
 /-- the canonical empty box `NewBounds()` -/
 def emptyBox [HasInf α] : Box α := ⟨⟨pinf, pinf⟩, ⟨ninf, ninf⟩⟩
@@ -105,6 +105,23 @@ def isEnvelopeB [HasInf α] [DecidableEq α] (vs : List (Pt α)) (b : Box α) : 
   match vs with
   | [] => decide (b = emptyBox)
   | _ :: _ => tightB vs b
+
+/-- a box in canonical form: it has a point, or it is `NewBounds()`.  Every box the library itself
+produces is canonical; a hand-written struct with `Max < Min` other than `NewBounds()` is not. -/
+def Canon [HasInf α] (b : Box α) : Prop := emptyB b = false ∨ b = emptyBox
+
+def canonB [HasInf α] [DecidableEq α] (b : Box α) : Bool := !emptyB b || decide (b = emptyBox)
+
+mutual
+/-- every `*Bounds` used as a geometry (at any depth) is a box with at least one point -/
+def boxesNonEmpty : Geom α → Bool
+  | .bounds mn mx => !emptyB (⟨mn, mx⟩ : Box α)
+  | .collection gs => boxesNonEmptyL gs
+  | _ => true
+def boxesNonEmptyL : List (Geom α) → Bool
+  | [] => true
+  | g :: gs => boxesNonEmpty g && boxesNonEmptyL gs
+end
 
 /-- the extreme corners of a box, none if it is empty -/
 def corners (b : Box α) : List (Pt α) := if emptyB b then [] else [b.mn, b.mx]
